@@ -349,6 +349,19 @@ def would_replace(x, top, builtins):
     return x in top or x not in builtins
 
 
+def py312_comp_sibling(s):
+    """Scan s: some name is bound by an inlined comprehension, read as a global in an inlined comprehension of the same
+    function that is opened later, and read as a global neither by the function's own block nor by an inlined
+    comprehension opened earlier (the name is then a global of the function already when the binder is inlined)"""
+    for v, i in s.lcomp_vars:
+        b = s.scopes[i]["bearer"]
+        if any(n == v and s.scopes[cur]["bearer"] == b and (cur == b or cur < i) for n, cur in s.all_globals):
+            continue
+        if any(n == v and cur > i and s.scopes[cur]["kind"] == "lcomp" and s.scopes[cur]["bearer"] == b for n, cur in s.all_globals):
+            return True
+    return False
+
+
 def triggers(params, body, top, builtins):
     """set of known-defect keys whose trigger condition holds for this formula.
     top = names assigned at module level of the source given to FormulaTransformer"""
@@ -361,11 +374,14 @@ def triggers(params, body, top, builtins):
         if n not in sc and n in s.globals_in.get(b, ()) and would_replace(n, top, builtins):
             out.add("D29")
     # comp_scope (an inlined list comprehension after a sibling lambda / def / generator expression): repaired in /repo
-    # comp_var: the variable of an inlined comprehension is also read as a global somewhere in the formula
-    allg = {n for n, _ in s.all_globals}
-    for v, i in s.lcomp_vars:
-        if v in allg:
-            out.add("comp_var")
+    # comp_var (the variable of an inlined comprehension is also read as a global somewhere in the formula): repaired in /repo
+    # What stays out is a defect of CPython 3.12.1 itself, not of modelx (the MODEL raises UnboundLocalError): a name that is the
+    # variable of one inlined comprehension and a global read in a LATER inlined comprehension of the same function, and that
+    # the function mentions neither outside comprehensions nor in an earlier one, is compiled as a local of the function
+    # (symtable.c inline_comprehension copies it as a local; the later comprehension then reads the unbound local):
+    #     def f(r): a = [r for k in range(1)]; return [4 for w in range(1) if r < k]        # k is a module global
+    if py312_comp_sibling(s):
+        out.add("cpython3121_comp_sibling")
     return out
 
 
